@@ -1,7 +1,7 @@
 """decision table of CompactionIterator::process_accumulated_versions (per accumulated version),
 extracted with E3 and mapped to role names; shared by C01.R3, C06.R1, C10.R2, C10.R5"""
 import itertools
-from ..core import AnchorMissing, origin_of_operand
+from ..core import AnchorMissing, origin_of_operand, rvalue_places
 from ..e3 import Region, E3Error
 
 ROLES = ["try_ok", "cur_vis", "newer_some", "same_boundary", "must_preserve", "versioning", "bottom", "is_latest",
@@ -62,6 +62,7 @@ def role_of(atom, value):
 def table(f):
     """returns (rows, info): rows = list of (cond: role->value (partial), output: bool)"""
     key = id(f)
+    GUARANTEE_ON[0] = drop_all_consults_oldest_snapshot(f)  # (per fact set: several trees are analysed in one process)
     if key in _cache:
         return _cache[key]
     b = f.body("CompactionIterator::process_accumulated_versions")
@@ -76,10 +77,23 @@ def table(f):
             ds = b.defs().get(l, [])
             if not ds or any(b.in_cycle(d[1]) for d in ds):
                 continue
+            # only inputs the per-version decision actually reads
+            read_in_loop = False
+            for i2, j2, lhs2, rv2, _ in b.assigns():
+                if b.in_cycle(i2) and any(pl[0] == l for pl in rvalue_places(rv2)):
+                    read_in_loop = True
+            for blk in b.live:
+                t = b.blocks[blk]["t"]
+                if b.in_cycle(blk) and t[0] == "switch" and t[1][0] in ("c", "m") and t[1][1][0] == l:
+                    read_in_loop = True
+            if not read_in_loop:
+                continue
             o = origin_of_operand(b, ["c", [l]], through_calls="all")
             if o.from_call("std::iter::Iterator::any"):
                 names[l] = "@has_replace"
-            elif o.from_call("InternalKey::is_hard_delete_marker"):
+            elif o.from_call("InternalKey::is_hard_delete_marker") or any(
+                    (not b.in_cycle(c.bb)) and c.primary.split("::")[-1] == "is_hard_delete_marker" and any(d[1] in b.reachable_after([c.bb]) for d in ds) for c in b.calls if c.bb in b.live):
+                # (a conjunction is lowered to control flow: the marker test may be a control dependence of the definition)
                 names[l] = "@latest_del_bottom"
         if ty.startswith("std::option::Option<") and "SnapshotVisibility" in ty and nm:
             names[l] = "@newer_vis"
@@ -117,15 +131,90 @@ def table(f):
                 cond[rv[0]] = rv[1]
         out = out_sites[0].bb in lf.trace
         rows.append((cond, out, lf))
-    info = {"paths": len(leaves), "rows": len(rows), "unknown_atoms": sorted(unknown), "region_start": b.where(hd[0].bb)}
+    GUARANTEE_ON[0] = drop_all_consults_oldest_snapshot(f)
+    info = {"paths": len(leaves), "rows": len(rows), "unknown_atoms": sorted(unknown), "region_start": b.where(hd[0].bb), "drop_all_consults_oldest_snapshot": GUARANTEE_ON[0]}
     if unknown:
         raise E3Error("decision region reads inputs the table does not know: %s" % sorted(unknown))
     _cache[key] = (rows, info)
     return rows, info
 
 
+_GUARANTEE = {}
+
+
+def drop_all_consults_oldest_snapshot(f):
+    """Structural premise for one feasibility constraint: the pre-loop flag `the latest version is a hard delete at the
+    bottom level: drop the whole key` (the one the decision reads) is only TRUE when the oldest open snapshot already sees
+    that delete -- the flag's value derives from, or its true-definition is control-dependent on, a test that reads the
+    snapshot list together with the latest version's sequence number.  Then every older version lies in the same
+    visibility boundary as the delete (or no snapshot is open), i.e. it is superseded for every reader."""
+    key = id(f)
+    if key in _GUARANTEE:
+        return _GUARANTEE[key]
+    from ..core import comparisons, bool_edges, edge_condition
+    b = f.body("CompactionIterator::process_accumulated_versions")
+
+    def preloop_bools():
+        for l, (ty, nm) in enumerate(b.locals):
+            if ty == "bool" and nm:
+                ds = b.defs().get(l, [])
+                if ds and not any(b.in_cycle(d[1]) for d in ds):
+                    yield l, ds
+
+    def consults(l):
+        o = origin_of_operand(b, ["c", [l]], through_calls="all")
+        if "snapshots" not in o.field_names():
+            return False
+        if any(x.primary.split("::")[-1] == "seq_num" for x in o.calls):
+            return True
+        for bb_ in [b] + list(f.closures_of(b)):
+            for cm in comparisons(bb_):
+                los = [origin_of_operand(bb_, cm.lhs, through_calls="all"), origin_of_operand(bb_, cm.rhs, through_calls="all")]
+                if cm.kind != "ord" and cm.op in ("Ge", "Le", "Gt", "Lt") and any(any(x.primary.split("::")[-1] == "seq_num" for x in oo.calls) for oo in los):
+                    return True
+        return False
+
+    # the drop-all flag = the pre-loop bool read inside the loop whose definition involves the hard-delete marker test
+    ok = False
+    for L, ds in preloop_bools():
+        read_in_loop = any(b.in_cycle(blk) and b.blocks[blk]["t"][0] == "switch" and b.blocks[blk]["t"][1][0] in ("c", "m") and b.blocks[blk]["t"][1][1][0] == L for blk in b.live) or \
+            any(b.in_cycle(i2) and any(pl[0] == L for pl in rvalue_places(rv2)) for i2, j2, lhs2, rv2, _ in b.assigns())
+        marker = any((not b.in_cycle(c.bb)) and c.primary.split("::")[-1] == "is_hard_delete_marker" and any(d[1] in b.reachable_after([c.bb]) or d[1] == c.bb for d in ds)
+                     for c in b.calls if c.bb in b.live)
+        if not (read_in_loop and marker):
+            continue
+        if consults(L):
+            ok = True  # the snapshot test is the value the flag is copied from (last conjunct)
+            continue
+        # ... or an earlier conjunct: the block that gives L a non-constant / true value is reached only when a flag that
+        # consults the snapshots is true
+        true_defs = [d[1] for d in ds if not (d[0] == "assign" and d[3][0] == "use" and d[3][1][0] == "k" and str(d[3][1][1].get("v")) in ("0", "false"))]
+        for G, gds in preloop_bools():
+            if G == L or not consults(G):
+                continue
+            for gd in gds:
+                starts = [gd[2].target] if gd[0] == "call" and gd[2].target is not None else [gd[1]]
+                for st_ in starts:
+                    e, sw = bool_edges(b, G, st_)
+                    if e is None or b.in_cycle(sw):
+                        continue
+                    if true_defs and all(edge_condition(b, sw, e, td) == frozenset({True}) for td in true_defs):
+                        ok = True
+    _GUARANTEE[key] = ok
+    return ok
+
+
+GUARANTEE_ON = [False]
+
+
 def feasible(t):
     """invariants between the inputs that hold by construction outside the region"""
+    if GUARANTEE_ON[0] and t["latest_del_bottom"]:
+        # the oldest open snapshot sees the delete: all versions of the key share its visibility boundary
+        if t["cur_vis"] == "Newer":
+            return False
+        if t["cur_vis"] == "Bounded" and not t["is_latest"] and not t["same_boundary"]:
+            return False
     if t["must_preserve"] != (t["cur_vis"] == "Bounded"):
         return False
     if t["newer_some"] == t["is_latest"]:
@@ -134,8 +223,10 @@ def feasible(t):
         return False
     if t["latest_del_bottom"] and t["is_latest"] and not t["hard_delete"]:
         return False
-    if t["is_latest"] and t["hard_delete"] and t["bottom"] and not t["latest_del_bottom"]:
+    if t["is_latest"] and t["hard_delete"] and t["bottom"] and not t["latest_del_bottom"] and not GUARANTEE_ON[0]:
         return False
+    if GUARANTEE_ON[0] and t["is_latest"] and t["hard_delete"] and t["bottom"] and not t["latest_del_bottom"] and t["cur_vis"] == "NoActive":
+        return False  # without an open snapshot the drop-all flag is set
     if t["replace"] and not t["has_replace"]:
         return False
     if t["replace"] and t["hard_delete"]:
